@@ -1,6 +1,7 @@
 package main
 
 import (
+	"time"
 	"bufio"
 	"bytes"
 	"encoding/hex"
@@ -294,4 +295,20 @@ func writeJSON(path string, v interface{}) error {
 		return err
 	}
 	return os.WriteFile(path, b, 0o644)
+}
+
+// watchdog runs f on its own goroutine and reports whether it returned within d (real time). A call
+// that does not return is a finding of its own ("hang"), never a reason for the harness to hang.
+func watchdog(d time.Duration, f func()) bool {
+	done := make(chan struct{})
+	go func() {
+		defer close(done)
+		f()
+	}()
+	select {
+	case <-done:
+		return true
+	case <-time.After(d):
+		return false
+	}
 }
